@@ -505,7 +505,7 @@ def _iterm(c, v):
     return v if c == 1 else "%d * %s" % (c, v)
 
 
-def gen_affine(rng, allow_k3=False):
+def gen_affine(rng, allow_k3=False, allow_occ=False):
     """Integer-affine accesses: convolution with stride/dilation, subsampling; 1-D or 2-D,
     optional plain channel ranks; optional shape partitioning of the output rank with the
     input rank following it."""
@@ -555,6 +555,12 @@ def gen_affine(rng, allow_k3=False):
     if third:
         decl_items.append(("B", [dims[0]["q"]]))
         facs.insert(rng.randrange(len(facs) + 1), "B[%s]" % dims[0]["q"].lower())
+    # a second tensor read through the same affine access: H[q+s] * F[s] * I[q+s] (two projected
+    # tensors co-iterated at every level of the index-math rank)
+    twin = any_filter and rng.random() < 0.15
+    if twin:
+        decl_items.insert(rng.randrange(len(decl_items) + 1), ("H", list(i_ranks)))
+        facs.insert(rng.randrange(len(facs) + 1), "H[" + ", ".join(i_acc) + "]")
     expr = "O[" + ", ".join(o_acc) + "] = " + " * ".join(facs)
     spec = {"decl": dict(decl_items), "exprs": [expr], "rank_order": None, "partitioning": None,
             "loop_order": None, "spacetime": None, "arch": None, "bindings": None, "format": None}
@@ -580,8 +586,10 @@ def gen_affine(rng, allow_k3=False):
     part = {}
     groups = []
     plevels = {}
+    any_occ = False
+    extra_params = {}
     for d in dims:
-        if rng.random() < 0.4:
+        if rng.random() < (0.7 if allow_occ else 0.4):
             halo = bool(d["s"])
             nlev = 1
             if rng.random() < 0.3 and (allow_k3 or not halo):
@@ -595,7 +603,20 @@ def gen_affine(rng, allow_k3=False):
                 st = [step_of(x, extents[d["q"]], {}) for x in dirs]
                 if st[0] < st[1]:
                     dirs.reverse()
-            if d["s"] and nlev == 1 and rng.random() < 0.25:
+            occ = allow_occ and rng.random() < 0.4
+            if occ:
+                # occupancy split of the index-math rank led by a projected tensor (outside C03/C04's stated
+                # domains: used for the closedness / ordering properties only, results are not judged)
+                leader = rng.choice(["I", "H"] if twin else ["I"])
+                dirs = (["uniform_shape(%d)" % rng.choice([2, 3, 4])] if rng.random() < 0.35 else []) + \
+                    ["uniform_occupancy(%s.%d)" % (leader, rng.choice([1, 2, 3]))]
+                nlev = len(dirs)
+                any_occ = True
+                # the compiler reads the level extent <ROOT><i> of an occupancy level in some loop orders
+                # (iterRangeShapeRef over the bottom level); the user would have to supply something
+                for i in range(nlev):
+                    extra_params[d["q"] + str(i)] = extents[d["q"]]
+            if d["s"] and nlev == 1 and not occ and rng.random() < 0.25:
                 # partition the filter rank instead; the accessed rank follows it
                 part[d["s"]] = dirs
                 part[d["w"]] = ["follow(%s)" % d["s"]]
@@ -640,7 +661,7 @@ def gen_affine(rng, allow_k3=False):
         spec["partitioning"] = {"O": part}
     meta = {"ranks": default_loop_order(spec, "O"), "dims": dims, "extents": extents, "derived_extents": derived,
             "part": part, "syms": {}, "lo_mode": lo_mode, "nlevels": sum(plevels.values()), "npart": len(plevels),
-            "out_only": [], "kind": "affine", "third": third, "two_out": two_out}
+            "out_only": [], "kind": "affine", "third": third, "two_out": two_out, "twin": twin, "occ": any_occ, "extra_params": extra_params}
     return spec, meta
 
 
@@ -820,9 +841,14 @@ def add_spacetime(rng, spec, out, loop_ranks, allow_coord=True, no_coord=()):
 
 
 def gen_spacetime(rng):
-    base = _choice_w(rng, [("P", 3), ("S", 4), ("O", 3), ("A", 2)])
+    base = _choice_w(rng, [("P", 3), ("S", 4), ("O", 3), ("A", 3)])
     if base == "A":
         spec, meta = gen_affine(rng)
+        for _ in range(3):
+            # mostly partitioned index-math ranks: the interval code shares position counters with the display
+            if meta["npart"] and spec.get("loop_order"):
+                break
+            spec, meta = gen_affine(rng)
         out = "O"
         if not spec.get("loop_order"):
             return gen_spacetime(rng)
@@ -863,6 +889,8 @@ def gen_mixed(rng, weights=None):
         spec, meta = gen_occ(rng)
     elif c == "A":
         spec, meta = gen_affine(rng)
+    elif c == "A+":
+        spec, meta = gen_affine(rng, allow_occ=True)
     elif c == "K":
         spec, meta = gen_cascade(rng)
     elif c == "T":
